@@ -99,6 +99,20 @@ theorem to_git_eq (src : Bytes) (a : Attrs) (index : Option Bytes) (k : CrlfRoun
     toGitResult src (pipelineToGit src a index k c) = convertToGit c.toGit a.toGit index k.toGit src :=
   to_git_eq_given_ident ident_undo_eq_git src a index k c
 
+/-- `ident_roundtrip`: for every byte string that `ident::undo` leaves alone (= everything the
+to-git direction stores) and every blob-id rendering without `$` and line break (hex digits):
+`ident::undo (ident::apply x) = x`. -/
+theorem ident_roundtrip (hash : Bytes → Bytes) (x : Bytes) (hhex : HexLike (hash x))
+    (hx : identUndo x = none) :
+    (identUndo ((identApply hash x).getD x)).getD ((identApply hash x).getD x) = x :=
+  ident_roundtrip_lemma hash x hhex hx
+
+-- non-vacuity: "a $Id$ $Id:\n$ b" is left alone by undo, expanded by apply, and comes back
+example : identUndo [97, 32, 36, 73, 100, 36, 32, 36, 73, 100, 58, 10, 36, 32, 98] = none := by decide +kernel
+example : identApply (fun _ => [48, 49]) [97, 32, 36, 73, 100, 36, 32, 36, 73, 100, 58, 10, 36, 32, 98]
+    = some [97, 32, 36, 73, 100, 58, 32, 48, 49, 36, 32, 36, 73, 100, 58, 10, 36, 32, 98] := by decide +kernel
+example : HexLike [48, 49] := by intro b hb; simp at hb; rcases hb with rfl | rfl <;> rfl
+
 /-- `to_git_eq` without the ident filter (attribute `ident` not set): unconditional, for all
 contents × attributes × configurations × index blobs × safecrlf modes. -/
 theorem to_git_eq_no_ident (src : Bytes) (a : Attrs) (index : Option Bytes) (k : CrlfRoundTripCheck)
@@ -131,6 +145,29 @@ theorem to_worktree_eq_no_ident (hash : Bytes → Bytes) (src : Bytes) (a : Attr
   rw [← h]
   simp only [hi, Bool.false_eq_true, if_false, eol_to_worktree_eq, Spec.C43.identToWorktree, Bool.not_false,
     if_true]
+  by_cases hs : Spec.C43.noStreamFilter (atPath a c).1.toAction = true
+  · simp [hs]
+  · have hs' : Spec.C43.noStreamFilter (atPath a c).1.toAction = false := by simpa using hs
+    simp only [hs', Bool.false_eq_true, if_false]
+    exact (stream_eq_crlfToWorktree c.toGit src _ hs').symm
+
+/-- `to_worktree_eq` WITH the ident filter, for contents without a `$` byte: nothing to expand on
+either side, the eol conversion is the same (checkout and `cat-file --filters`). For contents with
+`$Id` keywords the statement is false of today's code — see the three witnesses below. -/
+theorem to_worktree_eq_ident_no_dollar (hash : Bytes → Bytes) (src : Bytes) (a : Attrs) (c : Config)
+    (hident : a.ident = .set) (hsrc : ∀ b ∈ src, isDollar b = false) :
+    (pipelineToWorktree hash src a c).bytes src = checkoutEntry hash c.toGit a.toGit src ∧
+    (pipelineToWorktree hash src a c).bytes src = convertToWorkingTree hash c.toGit a.toGit src := by
+  rw [pipeline_order_to_worktree]
+  have h := digest_eq_git a c
+  have hi : (atPath a c).2 = true := by simp [atPath, hident]
+  have hmem : Spec.C43.identToWorktree hash src true = src := by
+    have : Spec.C43.countIdent src = 0 := countIdentLoop_noDollar src _ 0 hsrc
+    simp [Spec.C43.identToWorktree, this]
+  unfold checkoutEntry convertToWorkingTree
+  rw [← h]
+  simp only [hi, if_true, identApply_noDollar hash src hsrc, Option.getD_none, eol_to_worktree_eq, hmem,
+    identStream_noDollar _ src hsrc, and_true]
   by_cases hs : Spec.C43.noStreamFilter (atPath a c).1.toAction = true
   · simp [hs]
   · have hs' : Spec.C43.noStreamFilter (atPath a c).1.toAction = false := by simpa using hs
